@@ -280,7 +280,7 @@ func (t *tr) assignTo(l ast.Expr, v Term) {
 		t.defineIdent(x, v)
 	case *ast.StarExpr:
 		p := t.ev(x.X)
-		t.assert(neq(p, intLit(0)), "safety/nil", "", x.Pos(), "nil pointer dereference in store")
+		t.safety(neq(p, intLit(0)), "safety/nil", x.Pos(), "nil pointer dereference in store")
 		t.storePtr(p, v, x.Pos())
 	case *ast.SelectorExpr:
 		sl, ok := t.info.Selections[x]
@@ -296,7 +296,7 @@ func (t *tr) assignTo(l ast.Expr, v Term) {
 		case *types.Slice:
 			a := t.ev(x.X)
 			i := t.ev(x.Index)
-			t.assert(and(le(intLit(0), i), lt(i, slLen(a))), "safety/index", "", x.Pos(), "index out of range in store")
+			t.safety(and(le(intLit(0), i), lt(i, slLen(a))), "safety/index", x.Pos(), "index out of range in store")
 			es := t.V.W.sortOf(u.Elem())
 			h := t.elemHeap(es)
 			inner := sel(t.read(h), slArr(a))
@@ -304,12 +304,12 @@ func (t *tr) assignTo(l ast.Expr, v Term) {
 		case *types.Map:
 			m := t.ev(x.X)
 			k := t.evTo(x.Index, u.Key())
-			t.assert(neq(m, intLit(0)), "safety/nilmap", "", x.Pos(), "assignment to entry in nil map")
+			t.safety(neq(m, intLit(0)), "safety/nilmap", x.Pos(), "assignment to entry in nil map")
 			t.mapStore(u, m, k, v)
 		case *types.Array:
 			a := t.ev(x.X)
 			i := t.ev(x.Index)
-			t.assert(and(le(intLit(0), i), lt(i, intLit(u.Len()))), "safety/index", "", x.Pos(), "array index out of range in store")
+			t.safety(and(le(intLit(0), i), lt(i, intLit(u.Len()))), "safety/index", x.Pos(), "array index out of range in store")
 			na := store(a, i, v)
 			na.T = XT
 			t.assignTo(x.X, na)
@@ -334,7 +334,7 @@ func (t *tr) storePath(baseExpr ast.Expr, path []int, v Term, pos token.Pos) {
 	for _, idx := range path {
 		steps = append(steps, step{cur, idx})
 		if _, _, isPtr := derefStruct(cur.T); isPtr {
-			t.assert(neq(cur, intLit(0)), "safety/nil", "", pos, "nil pointer dereference in field store")
+			t.safety(neq(cur, intLit(0)), "safety/nil", pos, "nil pointer dereference in field store")
 		}
 		r, ok := t.loadFieldIdx(t.cur.Env, cur, idx)
 		if !ok {
@@ -490,12 +490,16 @@ func (t *tr) modifiedIn(f func()) []*Var {
 
 // loopHead asserts the invariants on entry, havocs the modified variables and assumes the invariants.
 // Returns the function that asserts preservation at the back edge.
-func (t *tr) loopHead(k int, pos token.Pos, body func()) func() {
+func (t *tr) loopHead(k int, pos token.Pos, body func(), alias map[string]*Var) func() {
 	invs := t.loopInvariants(k)
 	entryOld := t.root.Env
 	mkCtx := func() *specCtx {
 		sc := t.unitSpecCtx(t.cur.Env)
 		sc.pos = pos
+		sc.loop = k
+		for n, av := range alias {
+			sc.vars[n] = t.readIn(t.cur.Env, av)
+		}
 		_ = entryOld
 		return sc
 	}
@@ -536,6 +540,8 @@ func (t *tr) loopHead(k int, pos token.Pos, body func()) func() {
 			sc.where = c.Where
 			t.assert(t.spec(c.Expr, sc), fmt.Sprintf("inv-keep/%d", k), c.Label, pos, "loop invariant preserved: "+c.Text)
 		}
+		// the function's frame (w.r.t. the entry state) is an implicit loop invariant: it was assumed at the head
+		t.checkFrame(fmt.Sprintf("inv-keep/%d/frame", k))
 		t.cur = nil
 	}
 }
@@ -579,7 +585,7 @@ func (t *tr) forStmt(x *ast.ForStmt) {
 	ordBefore := t.loopOrd
 	keep := t.loopHead(k, x.Pos(), func() {
 		bodyAll()
-	})
+	}, nil)
 	t.loopOrd = ordBefore
 	if t.cur == nil {
 		return
@@ -710,7 +716,11 @@ func (t *tr) rangeStmt(x *ast.RangeStmt) {
 			t.assume(and(le(intLit(0), i), le(i, n)))
 		}
 	}
-	keep := t.loopHead(k, x.Pos(), bodyAll)
+	alias := map[string]*Var{}
+	if id, ok := x.Key.(*ast.Ident); ok && id.Name != "_" && x.Tok == token.DEFINE && (kind == "seq" || kind == "int") {
+		alias[id.Name] = idxVar
+	}
+	keep := t.loopHead(k, x.Pos(), bodyAll, alias)
 	t.loopOrd = ordBefore
 	if t.cur == nil {
 		return
